@@ -54,6 +54,8 @@ func exec(op string) vlib.Res {
 		return execSupDS(f)
 	case "nsec3 nodata":
 		return execN3(f)
+	case "nsec3 deleg":
+		return execN3Deleg(f)
 	case "proofname check":
 		return execProofName(f)
 	case "filter zone":
@@ -110,8 +112,10 @@ func gen(r *vlib.R, n int, tier string, emit func(string)) {
 	rest := n - n*9/20
 	for rest > 0 {
 		switch k := r.Intn(31); {
-		case k == 29 || k == 30:
+		case k == 29:
 			emit(genN3(r))
+		case k == 30:
+			emit(genN3Deleg(r))
 		case k == 23 || k == 24:
 			emit(genAdHitChase(r))
 		case k == 25 || k == 26:
